@@ -6,7 +6,7 @@
 (* or as the contiguous run of its cells (braille).  More occurrences than *)
 (* planted is refinement level only (ClearSpeak repeats interval end       *)
 (* points by design).                                                      *)
-(* Event: [kind, res, out (code points), lits <<[run, n]>>, boundary]      *)
+(* Event: [kind, res, out (code points), lits <<[runs, n]>>, boundary]     *)
 (***************************************************************************)
 EXTENDS Naturals, Sequences, FiniteSets, TLC, Json, IOUtils
 Rec == ndJsonDeserialize(IOEnv.TRACE)
@@ -17,8 +17,12 @@ At(run, s, i) == /\ i + Len(run) - 1 <= Len(s)
 Bounded(run, s, i) == /\ (i = 1 \/ ~IsDigit(s[i - 1]))
                       /\ (i + Len(run) > Len(s) \/ ~IsDigit(s[i + Len(run)]))
 Count(run, s, boundary) == Cardinality({i \in 1..Len(s) : At(run, s, i) /\ (boundary = 0 \/ Bounded(run, s, i))})
-Missing(e) == {k \in 1..Len(e.lits) : Count(e.lits[k].run, e.out, e.boundary) < e.lits[k].n}
-Extra(e) == {k \in 1..Len(e.lits) : Count(e.lits[k].run, e.out, e.boundary) > e.lits[k].n}
+\* a literal may be written in more than one way by a code (upper digits, or lowered digits in simple fractions / "drop numbers"):
+\* runs is the sequence of its (distinct) renderings
+RECURSIVE Total(_, _, _)
+Total(runs, s, boundary) == IF runs = <<>> THEN 0 ELSE Count(Head(runs), s, boundary) + Total(Tail(runs), s, boundary)
+Missing(e) == {k \in 1..Len(e.lits) : Total(e.lits[k].runs, e.out, e.boundary) < e.lits[k].n}
+Extra(e) == {k \in 1..Len(e.lits) : Total(e.lits[k].runs, e.out, e.boundary) > e.lits[k].n}
 TInit == l = 1
 TNext == /\ l <= Len(Rec)
          /\ LET e == Rec[l] IN
